@@ -45,6 +45,15 @@ theorem C18_counterexample_leftover_directory :
     Differs [.createBucket bka, .putObject bka kTU [1] none {} none, .deleteObject bka kTU,
       .putObject bka kT [2] none {} none] := by decide
 
+set_option maxRecDepth 8000 in
+/-- fs:long-key-internal-error (since 4f3e079 put_object refuses the key before anything is written: `KeyTooLongError`, and the
+    object does not exist afterwards; the store accepts a key of 200 bytes) -/
+theorem C18_counterexample_long_key :
+    Differs [.createBucket bka, .putObject bka (List.replicate 200 76) [1] none {} none] ∧
+    (run H0 0 {} [.createBucket bka, .putObject bka (List.replicate 200 76) [1] none {} none,
+      .getObject bka (List.replicate 200 76) none, .listObjectsV2 bka none none none none]).2 =
+      [.ok, .err .KeyTooLongError, .err .NoSuchKey, .listed [] 0 false []] := by decide
+
 /-- fs:complete-requires-consecutive-parts -/
 theorem C18_counterexample_complete_requires_consecutive :
     Differs [.createBucket bka, .createMultipartUpload alice bka kA none, .uploadPart alice bka kA (some 1) 2 [1],
